@@ -3,6 +3,7 @@ package checks
 import (
 	"fmt"
 	"math"
+	"sort"
 	"strconv"
 	"strings"
 )
@@ -83,6 +84,15 @@ func (t *c16Table) upsert(row Row) {
 	t.live[k] = &c16Entry{row: row, ver: ver, vals: vals}
 	t.vers[ver] = &c16VerInfo{key: k, vals: vals}
 	t.stored[c16GoKey(vals)] = vals
+}
+
+func (t *c16Table) liveKeys() []string {
+	ks := make([]string, 0, len(t.live))
+	for k := range t.live {
+		ks = append(ks, k)
+	}
+	sort.Strings(ks)
+	return ks
 }
 
 func (t *c16Table) del(vals []any) {
